@@ -248,7 +248,7 @@ func (c *checker) run(sch schema.Type, inputs []any, what string) {
 	for _, n := range natives {
 		cands = append(cands, n)
 		if m, ok := n.(map[string]any); ok {
-			for k := range m {
+			for _, k := range ukit.SortedKeys(m) {
 				d := map[string]any{}
 				for kk, vv := range m {
 					if kk != k {
@@ -289,6 +289,19 @@ func (c *checker) run(sch schema.Type, inputs []any, what string) {
 			}
 		})
 	}
+}
+
+// loaded returns the same schema obtained without constructors (see ukit.LoadScope): first use of every lazily
+// computed part. Only for map-based specs, which denote the same values either way.
+func loaded(spec *ukit.Spec) schema.Type {
+	if !ukit.PureMapBased(spec) {
+		return nil
+	}
+	l, err := ukit.LoadType(spec)
+	if err != nil {
+		return nil
+	}
+	return l
 }
 
 func oneOfSpecs() []*ukit.Spec {
@@ -335,6 +348,9 @@ func main() {
 					c := &checker{res: &res, spec: spec}
 					c.run(sch, ukit.RawValues(spec), "one-of")
 					res.Nontrivial++
+					if l := loaded(spec); l != nil {
+						c.run(l, ukit.RawValues(spec), "one-of loaded from its description")
+					}
 				}
 				res.Samples = append(res.Samples, map[string]any{"one_of": oneOfSpecs()[1].String()})
 				return res
@@ -356,6 +372,9 @@ func main() {
 				}
 				c.run(sch, objectInputs(g), what)
 				res.Nontrivial++
+				if l := loaded(spec); l != nil {
+					c.run(l, objectInputs(g), "object loaded from its description")
+				}
 			}
 			if b.Lo%5000 == 0 {
 				g := objs[(b.Lo+b.Hi)/2]
@@ -390,12 +409,18 @@ func main() {
 					}
 				}
 				c.run(sch, objectInputs(g), "object")
+				if l := loaded(r.Spec); l != nil {
+					c.run(l, objectInputs(g), "object loaded from its description")
+				}
 			} else {
 				c.run(sch, ukit.RawValues(r.Spec), "one-of")
+				if l := loaded(r.Spec); l != nil {
+					c.run(l, ukit.RawValues(r.Spec), "one-of loaded from its description")
+				}
 			}
 			return res.Findings
 		},
-		Rule: "objects with 1-3 properties over property types {string[1..], int[0..5], nested object}: ALL combinations of the per-property flags required / required_if / required_if_not / conflicts (each over every subset of the other properties) / default / disabled for n=1 (3 types) and n=2 (string,int; map-based and struct-mapped with pointer fields), <=3 set flags for the other n=2 type pairs and value-field structs, <=2 (thorough 3) set flags for n=3; x every subset of supplied properties x {valid, type-invalid} value per supplied property in two map representations x {undeclared key, non-string key, nil, list, lone values}; Unserialize is compared with the reference presence interpreter (verdict and value incl. defaults), Validate/Serialize with the reference on every accepted native value and its one-key-removed / undeclared-key-added neighbours. One-ofs: string and int keys x inlined / not x map-based, struct-mapped and referenced members x discriminator in every representation / unknown / missing / wrong type x member-valid and member-invalid payloads; non-trivial = distinct object / one-of schemas",
+		Rule: "objects with 1-3 properties over property types {string[1..], int[0..5], nested object}: ALL combinations of the per-property flags required / required_if / required_if_not / conflicts (each over every subset of the other properties) / default / disabled for n=1 (3 types) and n=2 (string,int; map-based and struct-mapped with pointer fields), <=3 set flags for the other n=2 type pairs and value-field structs, <=2 (thorough 3) set flags for n=3; x every subset of supplied properties x {valid, type-invalid} value per supplied property in two map representations x {undeclared key, non-string key, nil, list, lone values}; every map-based object and one-of twice: built by the constructors, and loaded from its own description through the meta-schema without constructors (first use of all lazily computed state); Unserialize is compared with the reference presence interpreter (verdict and value incl. defaults), Validate/Serialize with the reference on every accepted native value and its one-key-removed / undeclared-key-added neighbours. One-ofs: string and int keys x inlined / not x map-based, struct-mapped and referenced members x discriminator in every representation / unknown / missing / wrong type x member-valid and member-invalid payloads; non-trivial = distinct object / one-of schemas",
 		Assumptions: []string{
 			"defaults are applied first and never override a supplied value; then presence rules; a disabled property that is supplied or defaulted is 'in use'",
 			"Unknown (skipped): disabled properties in native values, struct-mapped native values, named string key types",
